@@ -51,6 +51,7 @@ def run(tier):
         traces.append(drive(c, "schedules", n, infile=e))
     traces.append(drive(c, "random", "random", n=nrand))
     traces.append(drive(c, "stress", "stress", n=nstress))
+    traces.append(drive(c, "bigclear", "bigclear", n=4 if c.quick() else 12))
     for name, path in traces:
         validate(c, path, name)
     if not c.quick():
@@ -61,7 +62,8 @@ def run(tier):
                       "a caller that has not returned 3 s after nothing is left to complete is reported as stuck"]
     return c.finish(rule="schedules = command histories (start call, complete creation ok/fail) of every transition of LRUConc.tla (3 callers, "
                          "keys {1, 2, alias of 1}, capacities 1-2%s) played on a real lru.ECache with a gated create callback and a recording "
-                         "delete callback; seeded random gated schedules (3-5 callers, capacities 1-3) and ungated stress (4-8 goroutines); "
+                         "delete callback; seeded random gated schedules (3-5 callers, capacities 1-3), ungated stress (4-8 goroutines) and a Clear of about 590 "
+                         "resident values racing GetOrCreate of the same keys; "
                          "every recorded history validated by TLC against LRUConcTrace.tla: linearizable to LRU!Apply with the same returned "
                          "values and evictions, single flight, each created value deleted exactly once by the final Clear, resident <= capacity"
                          % ("" if c.quick() else "-3"))
